@@ -38,6 +38,7 @@ pub enum BinaryRequest {
     QuitQuietly(binary::QuitRequest),
     ItemTooLarge(binary::SetRequest),
     Stats(binary::StatsRequest),
+    NotSupported(binary::Request),
 }
 
 impl BinaryRequest {
@@ -75,6 +76,8 @@ impl BinaryRequest {
             BinaryRequest::Flush(request) | BinaryRequest::FlushQuietly(request) => &request.header,
 
             BinaryRequest::Quit(request) | BinaryRequest::QuitQuietly(request) => &request.header,
+
+            BinaryRequest::NotSupported(request) => &request.header,
         }
     }
 }
@@ -289,7 +292,9 @@ impl MemcacheBinaryCodec {
             | Some(binary::Command::SaslListMechs)
             | Some(binary::Command::SaslStep) => {
                 error!("Command not supported, opcode: {:?}", self.header.opcode);
-                Ok(None)
+                Ok(Some(BinaryRequest::NotSupported(binary::Request {
+                    header: self.header,
+                })))
             }
 
             Some(binary::Command::OpCodeMax) => {
